@@ -342,16 +342,30 @@ func recoverAndProbe(dir string) (res string) {
 		}
 	}
 	post := "ok"
-	if err := e.Put([]byte("\x01post1"), []byte("P1")); err != nil {
-		post = "puterr"
+	// a write may schedule a background flush + log rotation; a following write that meets the rotation can fail with
+	// ErrWALRotating (retry budget 30 ms): this sequential probe waits for quiescence between its writes
+	imm := func() int {
+		n, _ := e.GetStats()["storage_immutable_memtable_count"].(int)
+		return n
 	}
-	if err := e.Put([]byte("\x01post2"), bytes.Repeat([]byte("Q"), 300)); err != nil {
-		post = "puterr"
+	// put + wait for a background flush it scheduled (the count rises by one, then drops to zero when the flush is done)
+	putQuiet := func(k, v []byte) {
+		before := imm()
+		if err := e.Put(k, v); err != nil {
+			post = "puterr:" + errTok(err)
+			return
+		}
+		if imm() > before {
+			deadline := time.Now().Add(30 * time.Second)
+			for imm() != 0 && time.Now().Before(deadline) {
+				time.Sleep(300 * time.Microsecond)
+			}
+		}
 	}
+	putQuiet([]byte("\x01post1"), []byte("P1"))
+	putQuiet([]byte("\x01post2"), bytes.Repeat([]byte("Q"), 300))
 	// a fragmented entry (> one physical record) written after the recovery must be recoverable too
-	if err := e.Put([]byte("\x01post3"), bytes.Repeat([]byte("R"), 40000)); err != nil {
-		post = "puterr"
-	}
+	putQuiet([]byte("\x01post3"), bytes.Repeat([]byte("R"), 40000))
 	snap["\x01post1"] = "P1"
 	snap["\x01post2"] = strings.Repeat("Q", 300)
 	snap["\x01post3"] = strings.Repeat("R", 40000)
